@@ -32,6 +32,9 @@ use std::ops::Range;
 use std::path::Path;
 use std::path::PathBuf;
 use std::sync::atomic;
+#[cfg(apollo_rs_verif)]
+use crate::verif_hooks::AtomicU64;
+#[cfg(not(apollo_rs_verif))]
 use std::sync::atomic::AtomicU64;
 use std::sync::Arc;
 use std::sync::OnceLock;
@@ -555,6 +558,13 @@ impl FileId {
     #[doc(hidden)]
     pub fn reset() {
         NEXT.store(INITIAL, atomic::Ordering::Release)
+    }
+
+    /// Position the file ID counter (verification builds only).
+    #[cfg(apollo_rs_verif)]
+    #[doc(hidden)]
+    pub fn verif_set_next(next: u64) {
+        NEXT.store(next, atomic::Ordering::Release)
     }
 
     const fn const_new(id: u64) -> Self {
